@@ -12,6 +12,46 @@ RULE = ("dlgen programs (negation, aggregates, records, recursion) with a genera
         "relation with a bound adornment position, and some output is non-empty; distinct by hash of (program, variant).")
 
 
+def add_diamonds(P, ch):
+    """queries of the magic_neglabel shape: q(x) :- C(..x..), B(..x..) where C negates (or aggregates over) some relation that in
+    turn depends on B -- the magic rules of B then depend on C, which is what negative labelling has to keep apart"""
+    from checks.c13 import depends, body_rels
+    from vlib.dlgen import Atom, Neg, Cmp, Agg, Var, Wild, Rule, Rel
+    dep = depends(P)
+    cands = []
+    for r in P.rules:
+        negged = set()
+        for l in r.body:
+            if isinstance(l, Neg):
+                negged.add(l.atom.rel)
+            elif isinstance(l, Cmp):
+                for t in (l.lhs, l.rhs):
+                    if isinstance(t, Agg):
+                        negged |= body_rels(t.body, set())
+        for pn in negged:
+            for b in sorted(dep.get(pn, ())):
+                if P.rels[b].kind == "idb" and b != r.head.rel:
+                    cands.append((r.head.rel, b))
+    added = []
+    for k in range(min(2, len(cands))):
+        c, b = ch.choice(cands)
+        C, B = P.rels[c], P.rels[b]
+        pairs = [(i, j) for i, t in enumerate(C.types) for j, u in enumerate(B.types) if dlgen.tname(t) == dlgen.tname(u) and not isinstance(t, dlgen.RecT)]
+        if not pairs:
+            continue
+        i, j = ch.choice(pairs)
+        x = Var("dq%d" % k, C.types[i])
+        q = Rel("dq%d" % k, [C.types[i]], "idb")
+        q.group = len(P.groups)
+        P.add_rel(q)
+        P.groups.append([q.name])
+        P.rules.append(Rule(Atom(q.name, [x]), [Atom(c, [x if n == i else Wild(t) for n, t in enumerate(C.types)]),
+                                                  Atom(b, [x if n == j else Wild(t) for n, t in enumerate(B.types)])]))
+        q.output = True
+        added.append(q.name)
+    return added
+
+
 def gen(ch):
     P = dlgen.generate(ch, dlgen.Feat())
     idb = [n for n in P.order if P.rels[n].kind == "idb"]
@@ -21,6 +61,7 @@ def gen(ch):
     feat = dlgen.Feat()
     qs = dlgen.add_queries(P, ch, feat, ch.int(1, 2))
     outs = outs + qs
+    outs = outs + add_diamonds(P, ch)
     if not outs:
         P.rels[idb[-1]].output = True
         outs = [idb[-1]]
